@@ -15,7 +15,9 @@ def run(ctx):
         "weighted_average, loss_time_threshold; token extraction of the remaining constants/operators); vh-core harness and python oracles",
         "durations < 2^62 ns and timestamps < 2^62 us (beyond that the Rust code panics on u64/Duration overflow in debug builds)",
         "recovery::Manager (s2n-quic-transport, private) is a hand-written Lean model (QuicModel/Recovery/Manager.lean) tied to the "
-        "code only through the public pieces it calls (loss::detect, RttEstimator, Pto); in-crate hook / e2e traces are the integrator's tie",
+        "code on every run only through the public pieces it calls (loss::detect, RttEstimator, Pto, persistent_congestion::Calculator); "
+        "it was diffed once against the real Manager in a scratch copy (harness/hooks-draft/recovery_manager_verif.rs: 33,597 ops, 0 differences); "
+        "the permanent tie is the integrator's in-crate hook / e2e traces. Not modelled: ECN validation, MTU controller, pacing, PTO jitter",
     ]
     step_extract(ctx, ["recovery"])
     lean_ok = step_lean(ctx, PROP_MODULES, BRIDGES)
